@@ -402,6 +402,9 @@ func docScalar(v any) (string, bool) {
 		if len(x) == 0 {
 			return "{}", true
 		}
+		if raw, ok := x["$raw"].(string); ok && len(x) == 1 {
+			return raw, true // a plain (unquoted) scalar exactly as written
+		}
 	case []any:
 		if len(x) == 0 {
 			return "[]", true
@@ -409,3 +412,7 @@ func docScalar(v any) (string, bool) {
 	}
 	return "", false
 }
+
+// RawScalar marks a document value that is written as a plain, unquoted YAML scalar with exactly
+// this text (e.g. 010, 1.10, true, ~ for a string field): the schema sees the text.
+func RawScalar(text string) map[string]any { return map[string]any{"$raw": text} }
